@@ -152,6 +152,28 @@ def groupPenaltyWarnings (mi : ModelItems) (g : Group) : Option (List String) :=
       else (unlinkedProblems mi d).map (fun ps => penaltyWarnings mi (ps.map (·.fullLabels)) d.globalAxis))).map
       List.flatten
 
+/-! ### linked groups: the decisions of the interval items, per aligned point and per member -/
+
+/-- for every aligned point `v` of a linked group, in the order of the aligned axis: `v`, the members
+    (dataset number, index on the dataset's own global axis) with their own coordinates, the labels of
+    the stacked matrix, the labels left after `reduce_matrix` **at `v`**, then for every constraint /
+    relation of the model (in model order) whether it applies at `v` and whether it would apply at each
+    member's own coordinate -/
+def linkDecisions (mi : ModelItems) (g : Group) : Option (List String) :=
+  match alignAxes (g.datasets.map (·.globalAxis)) g.tol g.method, linkedProblems mi g with
+  | some aligned, some (axis, ps) =>
+    some ((axis.zip ps).map (fun vp =>
+      let v := vp.1
+      let p := vp.2
+      let mem := memberIdx aligned v
+      let own := mem.map (fun dj => (g.datasets.getD dj.1 default).globalAxis.getD dj.2 0)
+      let consAt := fun (x : Rat) => Proto.showList (mi.constraints.map (fun c => Proto.showBool (c.appliesAt x)))
+      let relAt := fun (x : Rat) => Proto.showList (mi.relations.map (fun r => Proto.showBool (applies r.interval x)))
+      Proto.showList [Proto.showRat v, Proto.showList (mem.map (fun dj => Proto.showNats [dj.1, dj.2])), Proto.showRats own,
+        Proto.showStrs p.fullLabels, Proto.showStrs p.reduced.labels, consAt v, relAt v,
+        Proto.showList (own.map consAt), Proto.showList (own.map relAt)]))
+  | _, _ => none
+
 /-! ### driver -/
 open Glotaran.Proto
 
@@ -225,6 +247,17 @@ def driverStep (s : State) (ts : List Tree) : State × String :=
       match e.groups.mapM (numberOfClps e.mi) with
       | some ns => (s, "nclps " ++ toString (ns.foldl (· + ·) 0))
       | none => (s, "err unsolvable")
+    | none => (s, "err no-model-axis")
+  | [.atom "linkdec"] =>
+    -- one entry per group: `none` for an unlinked group, `err` when the alignment is refused / a dataset has no matrix
+    match effective s with
+    | some (e, _) =>
+      (s, "linkdec " ++ showList (e.groups.map (fun g =>
+        if g.linked then
+          match linkDecisions e.mi g with
+          | some rows => showList rows
+          | none => "err"
+        else "none")))
     | none => (s, "err no-model-axis")
   | [.atom "penwarn"] =>
     match effective s with
